@@ -259,6 +259,17 @@ CLAIMS = {
           "cases in quick, every kind per case in thorough. Drill: the directory text is accepted in val_to_num's reading. "
           "A write that raises because a row group holds only rows with missing keys is accepted (pandas groupby)."),
     technique="TLA+ spec of partition routing + typed-path case analysis; TLC enumeration; spec->code replay"),
+ "C14": dict(
+    level="model_checking",
+    text=("spec/ManyFiles.tla enumerates collections of 1..3(4) files (row counts incl. 0, directory keys) x ways of opening "
+          "(list, directory, glob, merge) x absolute/relative paths x verification x which file deviates in schema, with the "
+          "contract rows = concatenation in the given order, count = sum, rejection under verification; each is built with "
+          "the real writer in flat, hive and drill directory shapes and opened. spec/Categorical.tla (model-checked in both "
+          "variants) supplies every sequence of per-file dictionaries, written as separate files and opened together."),
+    design_ref="DESIGN.md section 5 C14, section 10",
+    note=("Quick replays every third collection per shape. For directory/glob openings the order is the library's (row "
+          "multiset compared). One defect repaired (>= 3 relative paths); known finding KF-C14-1 (differing dictionaries)."),
+    technique="TLA+ specs (collection lattice, dictionary mechanism) + TLC enumeration; spec->code replay"),
 }
 
 NOT_BUILT = "not built yet (construction order in DESIGN.md section 9)"
